@@ -12,7 +12,8 @@ from .. import core, gen
 RULE = ("structures: random consistent Atoms (1–8 atoms quick / –12 thorough; no cell, orthorhombic, or LAMMPS-oriented "
         "tilted cell with tilt factors of either sign; 1–4 atom types incl. unused ones; any subset of bond/angle/dihedral/"
         "improper terms and coefficient tables incl. unused entries and ids beyond the table; coefficient strings = random "
-        "tokens separated by blanks/tabs with at most one trailing comment, possibly empty; labels with inner blanks or "
+        "tokens separated by blanks/tabs with at most one trailing comment, possibly empty; any subset of the three tilt "
+        "factors zero or rounding to zero; labels with inner blanks or "
         "empty; negative charges/coordinates/groups; numbers on the 10⁻⁶ grid, with more digits, exact printf ties (k/128) "
         "and tiny negatives; masses from the table or unknown), each in BOTH atom styles; plus a rejection stream (cells "
         "that are not lower-triangular) and a malformed-file stream for the reader's state machine. "
@@ -71,6 +72,13 @@ def rand_lmp_atoms(rng, nmax=8, cell_kind=None):
                        extras=(rng.random() < 0.15), unique_tags=False)
     if ck != "none":
         j["cell"], _ = gen.rand_cell(rng, ck)
+        if ck in ("tri+", "tri-"):           # any subset of the three tilt factors may be zero, or round to zero
+            for (r, c) in ((1, 0), (2, 0), (2, 1)):
+                u = rng.random()
+                if u < 0.35:
+                    j["cell"][r][c] = "0"
+                elif u < 0.42:
+                    j["cell"][r][c] = core.q(rng.choice([3e-7, -3e-7, 4.9e-7]))
         if rng.random() < 0.3:               # lengths / tilts that are not on the printed grid
             for r in range(3):
                 for c in range(r + 1):
@@ -454,7 +462,8 @@ def malform(rng, text):
     lines = text.split("\n")
     kind = rng.choice(["two-hash", "no-mass", "bad-number", "no-blank-after-name", "blank-in-section", "comment-line",
                        "name-with-comment", "keyword-in-section", "keyword-extra", "drop-atoms", "extra-column",
-                       "short-row", "zero-id", "trailing-blanks", "keyword-no-number", "ragged"])
+                       "short-row", "zero-id", "trailing-blanks", "keyword-no-number", "ragged",
+                       "no-mass-comments", "one-mass-comment-missing", "flat-box", "late-box"])
     idx = {l.strip(): i for i, l in enumerate(lines)}
     atoms_at = idx.get("Atoms")
     masses_at = idx.get("Masses")
@@ -468,7 +477,7 @@ def malform(rng, text):
     elif kind == "bad-number":
         i = atoms_at + 2
         t = lines[i].split()
-        t[rng.randrange(min(len(t), 5))] = rng.choice(["abc", "1.5x", "--1", "1.0000000", ""])
+        t[rng.randrange(min(len(t), 5))] = rng.choice(["abc", "1.5x", "--1", "1.0.0", ""])
         lines[i] = " ".join(t)
     elif kind == "no-blank-after-name":
         del lines[atoms_at + 1]
@@ -514,6 +523,21 @@ def malform(rng, text):
         lines += ["", "", "  "]
     elif kind == "keyword-no-number":
         lines.insert(2, rng.choice(["xlo xhi", "a xy xz yz", "xy xz yz", "1 xy xz yz"]))
+    elif kind in ("no-mass-comments", "one-mass-comment-missing") and masses_at is not None:
+        j = masses_at + 2
+        first = True
+        while j < len(lines) and lines[j].strip():
+            if kind == "no-mass-comments" or first:
+                lines[j] = lines[j].split("#")[0].rstrip()
+            first = False
+            j += 1
+    elif kind == "flat-box":                 # a box with a zero / negative length: no cell
+        for j, l in enumerate(lines):
+            if l.endswith("ylo yhi"):
+                lines[j] = rng.choice([" 0.000000 0.000000 ylo yhi", " 2.000000 1.000000 ylo yhi"])
+    elif kind == "late-box":                 # box keywords after the sections ended: still header lines
+        lines += ["", " 0.000000 3.500000 xlo xhi", " -1.000000 4.250000 ylo yhi", " 0.5 2 zlo zhi",
+                  rng.choice([" 0 0 0.25 xy xz yz", " 0 -1.5 0 xy xz yz", " 0.0 0.0 0.0 xy xz yz"])]
     elif kind == "ragged":
         j = atoms_at + 2
         if j + 1 < len(lines) and lines[j + 1].strip():
